@@ -226,6 +226,7 @@ def run_case(case):
     except Exception as e:  # noqa: BLE001
         res["create_error"] = f"{type(e).__name__}: {str(e)[:200]}"
         return res
+    prev = {}              # attribute -> (source dtype, patterns) of the previous example (for the raw-byte twins)
     expected = []          # per written example: {name: ("num", decl dtype, shape, {idx: pattern}) | ("bytes", b) | ("str", s)}
     with ds.filler() as f:
         for ex_i in range(case["n"]):
@@ -249,21 +250,46 @@ def run_case(case):
                 if d in ("int64", "float64"): choices.append("list")
                 pres = rng.choice(choices)
                 src = rng.choice(nar) if pres == "narrow" else d
-                pats = {idx: _rand_pattern(rng, src) for idx in _indices(s)}
-                if pres == "scalar":
-                    u = _uint_of(src) if src != "bool" else np.dtype("uint8")
-                    v = np.array(pats[()], dtype=u).view(np.dtype(src) if src != "bool" else np.bool_)[()]
-                elif pres == "list":
-                    arr = _build_array(rng, s, src, pats, "c")
-                    v = arr.tolist()
-                    # a Python int/float carries the same value (float64 <-> Python float is the identity on bits)
-                elif pres == "narrow":
-                    v = _build_array(rng, s, src, pats, rng.choice(["c", "f", "strided"]))
-                else:
+                twin = None
+                if case.get("twins"):
+                    # pairs of examples whose *raw input bytes* coincide while their values differ: the same bytes handed over
+                    # under another dtype of the same width, or byte-swapped under the other byte order
+                    if ex_i % 2 == 0:
+                        pres, src = "c", rng.choice([d] + nar)
+                    elif n in prev:
+                        psrc, ppats = prev[n]
+                        k = np.dtype(psrc).itemsize
+                        cands = [("dtype", x) for x in [d] + nar if x != psrc and np.dtype(x).itemsize == k and psrc != "bool" and x != "bool"]
+                        if k > 1: cands.append(("swap", psrc))
+                        if cands:
+                            twin = rng.choice(cands)
+                if twin is not None:
+                    kind_, src = twin
+                    if kind_ == "dtype":
+                        pats = dict(prev[n][1]); pres = "c"
+                    else:
+                        kb = np.dtype(src).itemsize
+                        pats = {idx: int.from_bytes(p.to_bytes(kb, "little"), "big") for idx, p in prev[n][1].items()}; pres = "big"
                     v = _build_array(rng, s, src, pats, pres)
+                    how_twin = f"twin-{kind_}"
+                else:
+                    how_twin = None
+                    pats = {idx: _rand_pattern(rng, src) for idx in _indices(s)}
+                    if pres == "scalar":
+                        u = _uint_of(src) if src != "bool" else np.dtype("uint8")
+                        v = np.array(pats[()], dtype=u).view(np.dtype(src) if src != "bool" else np.bool_)[()]
+                    elif pres == "list":
+                        arr = _build_array(rng, s, src, pats, "c")
+                        v = arr.tolist()
+                        # a Python int/float carries the same value (float64 <-> Python float is the identity on bits)
+                    elif pres == "narrow":
+                        v = _build_array(rng, s, src, pats, rng.choice(["c", "f", "strided"]))
+                    else:
+                        v = _build_array(rng, s, src, pats, pres)
+                prev[n] = (src, pats)
                 vals[n] = v
                 exp[n] = ("num", d, s, {idx: _cast_pattern(src, d, p) for idx, p in pats.items()})
-                how[n] = pres if pres != "narrow" else f"narrow:{src}"
+                how[n] = (how_twin or pres) + (f":{src}" if src != d else "")      # "<presentation>[:<narrower source dtype>]"
                 for p in pats.values():
                     res["patterns"]["special" if (d == "bool" or p in _special_patterns(src)) else "random"] += 1
             try:
@@ -345,7 +371,7 @@ def run_case(case):
                 if fmt == "tfrec" and np.dtype(d).kind in "iu" and h[1] != "int64":
                     return {"reader": reader, "kind": "dtype", "attr": n, "dtype": d, "example": ex_i, "how": how[n], "got": h[1]}
                 bad = [idx for idx in w[3] if h[3].get(idx) != w[3][idx]]
-                if how[n].startswith("narrow") and np.dtype(d).kind == "f":
+                if ":" in how[n] and np.dtype(d).kind == "f":
                     # which NaN a narrower NaN widens to is the cast's choice, not the container's: any NaN will do
                     bad = [idx for idx in bad if not (_classify(d, w[3][idx]) in ("snan", "qnan") and h[3].get(idx) is not None
                                                       and _classify(d, h[3][idx]) in ("snan", "qnan"))]
@@ -520,7 +546,8 @@ def make_cases(ctx, tables):
                 # quick: always the sync reader, the others in rotation
                 others = [r for r in readers if r != "sync"]
                 readers = ["sync"] + ([others[i % len(others)]] if others else [])
-            cases[fmt].append({"fmt": fmt, "comp": comp, "attrs": attrs, "n": rng.choice([4, 5, 7]), "eps": rng.choice([2, 3]), "seed": rng.randrange(1 << 30), "readers": readers})
+            cases[fmt].append({"fmt": fmt, "comp": comp, "attrs": attrs, "n": rng.choice([4, 5, 7]), "eps": rng.choice([2, 3]), "seed": rng.randrange(1 << 30), "readers": readers,
+                               "twins": i % 4 == 1})
     return cases
 
 
@@ -641,7 +668,8 @@ def run(ctx):
         "traces_validated_against_impl": len(live) - len(corr_bad) + len(sreqs) - len(swap_bad) + len(preqs) - len(pat_bad),
         "rule": "datasets per format x every compression its writer lists (generated table) x attribute lists (1..4 attributes incl. an id; ~1/5 without id, compared as multisets) x "
                 "shapes of rank 0..4 x bit patterns (45% from: +-0, +-inf, quiet/signalling NaNs with payloads, subnormals, min/max; else uniform random bits) x presentations "
-                "(C, F, strided view, reversed, transposed, read-only, big-endian, safely castable narrower dtype, numpy scalar, nested list) x readers; element-wise bit comparison; "
+                "(C, F, strided view, reversed, transposed, read-only, big-endian, safely castable narrower dtype, numpy scalar, nested list; in a quarter of the datasets consecutive examples are "
+                "*twins*: identical raw input bytes under another dtype of the same width or under the other byte order, i.e. different values) x readers; element-wise bit comparison; "
                 "fb: stored byte vectors (independent FlatBuffers walk) = M-CODEC encodeAttr, decode_array = decodeAttr; swap decision for 4 tags x 2 claimed hosts; int patterns vs numpy",
         "samples": [{"case": r["case"], "written": r.get("written"), "mismatches": len(r["mismatches"])} for r in results[:3]],
         "input_distribution": {"datasets": len(results), "elements_compared": sum(r.get("elements", 0) for r in results), "presentations": dict(pres), "patterns": dict(pats),
